@@ -85,6 +85,12 @@ def cases(tier, seed):
         out.append({"desc": d, "cli": mi % 5 == 0 or big, "w": 20 if big else nlev})
         if nlev >= 2 and not big and mi % 4 == 1:
             out.append({"desc": d, "poison_covered": True, "w": 1})
+    # 27 + 20 boxes scattered over five / three files
+    d = dict(scope.many_box_mesh())
+    d.update(geos[(seed + 1) % 2])
+    d.update({"fields": ["temp", "volFrac", "density"], "payload": ["pos", "frac", "signed"],
+              "layout": [scope.scattered_layout(27, 5), scope.scattered_layout(20, 3)], "seed": seed})
+    out.append({"desc": d, "cli": True, "w": 30})
     # seven levels towards the far corner, twelve fields (volFrac among them): FAB header lines longer than 100 bytes
     d = dict(scope.deep_corner_mesh())
     d.update(geos[seed % 2])
